@@ -1,10 +1,14 @@
 """C10 - results independent of pixel layout, row order and pitch."""
 ID = "C10"
-VARIANTS = ["san", "simd"]
+VARIANTS = ["san", "simd", "sse2"]
+VARIANT_ALIAS = {"sse2": "simd"}
+ENV = {"sse2": {"JSIMD_FORCESSE2": "1"}}
 RULE = ("cconv/dconv: rows of pixels converted by the real RGB->YCbCr / YCbCr->RGB code for each of the 10 RGB-family pixel formats "
         "(scalar build and SIMD build), compared sample by sample with the layout-parametrised Lean converter (structured sweeps over "
         "the 2^24 colour cube: all (r,g) at several b, extremes, random); pfeq: the same picture compressed from / decompressed to "
-        "every layout with junk in unused bytes, pitch padding and both row orders, 8/12/16-bit, lossy and lossless (oracle)")
+        "every layout with junk in unused bytes, pitch padding and both row orders, 8/12/16-bit, lossy and lossless, every subsampling incl. "
+        "grayscale (oracle); variants: scalar build, SIMD build at its best instruction-set level, and the SIMD build held at SSE2 "
+        "(each level has its own table of per-layout routines)")
 TRUSTED = ["Model.Color is a hand model of jccolext.c / jdcolext.c with constants regenerated from the FIX(...) literals of the source"]
 ASSUMPTIONS = ["'maximum sample value' for alpha is the maximum of the sample data type (_MAXJSAMPLE)"]
 
@@ -29,7 +33,7 @@ def gen_ops(rng, tier):
     for i in range(250 if big else 40):
         ll = int(rng.random() < .3)
         P = rng.choice([8, 8, 12, 16, 5]) if ll else rng.choice([8, 8, 12])
-        ops.append("pfeq %d %d %d %d %d %d %d %d" % (P, ll, rng.choice([0, 1, 2, 2, 2, 4, 5, 6]), rng.choice([1, 7, 16, 17, 33, 40, rng.randint(1, 70), rng.randint(1, 130)]),
+        ops.append("pfeq %d %d %d %d %d %d %d %d" % (P, ll, rng.choice([0, 1, 2, 2, 2, 3, 3, 4, 5, 6]), rng.choice([1, 7, 16, 17, 33, 40, rng.randint(1, 70), rng.randint(1, 130)]),
                                                      rng.choice([1, 8, 9, 16, 19]), rng.randrange(1 << 24), rng.randint(0, 1), rng.randint(0, 1)))
     # merged (fast) upsampling + crop + 4-sample layouts, both parities of the top row
     for P in (8, 12):
